@@ -1,5 +1,10 @@
 #!/usr/bin/env python3
-"""C12 - diagnostics carry valid spans; a diagnostic-free tree has no error nodes (syntax part; semantic spans are checked with the analyser checks).
+"""C12 - diagnostics carry valid spans; a diagnostic-free tree has no error nodes.
+
+Semantic diagnostics: (a) the programs generated from the analyser machine spec (Analyzer.tla, see checks/anzcommon.py) are
+analysed and every semantic diagnostic must be the range of a node of the tree; (b) the include arrangements generated from
+Includes.tla (see checks/C18.py) are analysed and every diagnostic of every list - main text, each included file, files that
+cannot be read - must be the range of a node of THAT list's file.
 
 Both public parse entry points are driven over (i) every token sequence up to a length over the full
 91-kind token alphabet, as oq3_parser::Input (all jointness patterns) and rendered to text, (ii) the
@@ -12,12 +17,54 @@ sys.path.insert(0, os.path.dirname(os.path.abspath(__file__)))
 from parsecommon import *
 
 
+def semantic_spans(c):
+    import anzcommon
+    # (a) analyser programs
+    cases, outs, stats = anzcommon.run(c)
+    seen = set(); n = 0
+    for i, case in enumerate(cases):
+        for (p, kind, what, detail) in anzcommon.compare(case, outs[i]):
+            if p != "C12":
+                continue
+            n += 1
+            if (kind, what) in seen:
+                continue
+            seen.add((kind, what))
+            c.report({"kind": "sem_" + kind, "what": what, "text": outs[i]["text"], "detail": detail, "site": ""})
+    # (b) include arrangements (a stride sample of the arrangements C18 replays)
+    arr = []
+    for cfg, stride in (("Includes.cfg", 160 if c.quick else 8), ("Includes2.cfg", 160 if c.quick else 8)):
+        r = run_tlc("includes", "Includes", cfg, workers=8, timeout=2400, xss="512m", cache_key="inc", keep_tags={"CASE"}, xmx="16g")
+        if not r.ok:
+            c.tool_error(f"Includes {cfg}: {r.violated} {r.error_text}")
+        cs = r.tagged.get("CASE", [])
+        arr += cs[(c.seed + 7) % stride::stride]
+    cp = os.path.join(c.work, "inc12.ndjson")
+    with open(cp, "w") as fh:
+        for x in arr:
+            fh.write(json.dumps(x) + "\n")
+    wd = os.path.join(c.work, "tree12"); os.makedirs(wd, exist_ok=True)
+    op = os.path.join(c.work, "inc12out.json")
+    p = run_harness(["inc-cases", cp, wd, op], timeout=6000)
+    if p.returncode != 0:
+        c.tool_error("inc-cases failed: " + p.stderr[-1500:])
+    d = json.load(open(op))
+    for f in d["failures"]:
+        if f.get("prop") != "C12" or ("inc", f["what"]) in seen:
+            continue
+        seen.add(("inc", f["what"]))
+        c.report({"kind": f["kind"], "what": f["what"], "main": f["main"], "cfg": f["cfg"], "detail": f["detail"], "site": ""})
+    c.cov["semantic_spans"] = {"analyser_programs": len(cases), "include_arrangements": d["runs"]}
+    c.cov["traces_validated_against_impl"] = c.cov.get("traces_validated_against_impl", 0) + len(cases) + d["runs"]
+
+
 def main():
     c = Check("C12")
     c.level = "model_checking"
     c.assumptions += ["bounds (DESIGN 5/C01): random inputs <= 4 KiB, nesting <= 64, token sequences <= 5 (thorough) / <= 4 (quick) as Input, <= 4 / <= 3 as text",
                       "rowan and the Unicode tables are trusted", "linear work is measured as parser events <= 64 * (tokens + 1)"]
     run(c, {"C12"})
+    semantic_spans(c)
     c.finish()
 
 
